@@ -153,6 +153,11 @@ def check_case(case, seed_key, res, tier):
             except evmon.WallNominate:
                 res.count('inconclusive_wall')
                 continue
+            except RecursionError:
+                # resource limit, not a verdict: the sparse form of an array with > ~100 chunks (e.g. the square of an 11-piece
+                # concatenation) is a left-deep sum whose depth exceeds Python's recursion limit in Evaluable.arguments
+                res.count('recursion_limit')
+                continue
             except Exception as e:
                 res.violation('evaluating the sparse form raised', pack(case, av), f'output {j} ({cfgname}): {type(e).__name__}: {str(e)[:300]}\n' + traceback.format_exc()[-600:])
                 return
@@ -201,6 +206,8 @@ def check_case(case, seed_key, res, tier):
                 return
         except evmon.WallNominate:
             res.count('inconclusive_wall')
+        except RecursionError:
+            res.count('recursion_limit')
         except Exception as e:
             res.violation('evaluating sparse chunks raised', pack(case, av), f'output {j}: {type(e).__name__}: {str(e)[:300]}')
             return
@@ -212,6 +219,9 @@ def check_case(case, seed_key, res, tier):
                     cv, rp, ci, nc = evmon.evaluate(tuple(csr), av, simplify=True, optimize=True)
             except evmon.WallNominate:
                 res.count('inconclusive_wall')
+                continue
+            except RecursionError:
+                res.count('recursion_limit')
                 continue
             except Exception as e:
                 res.violation('as_csr raised', pack(case, av), f'output {j}: {type(e).__name__}: {str(e)[:300]}')
@@ -355,7 +365,7 @@ def finalize(m, tier, seed):
                         kinds={k[4:]: v for k, v in c.items() if k.startswith('fem/')}),
                node_classes_in_sparse_programs=sorted(m.sets.get('classes', ()))[:80],
                skipped_c01_event=c.get('skipped_c01_event', 0), out_of_domain=c.get('out_of_domain', 0), rejected_constructions=c.get('rejected_constructions', 0),
-               inconclusive_wall=c.get('inconclusive_wall', 0), skipped_deadline=c.get('skipped_deadline', 0))
+               inconclusive_wall=c.get('inconclusive_wall', 0), recursion_limit=c.get('recursion_limit', 0), skipped_deadline=c.get('skipped_deadline', 0))
     inc = None
     if c.get('evaluations', 0) < 0.5 * scaled(NCASES[tier]):
         inc = f"only {c.get('evaluations', 0)} programs ran before the deadline"
